@@ -42,6 +42,14 @@ Proof.
 Qed.
 Print Assumptions C17_member_lookup_cost_linear.
 
+(* 5. The same for the assignment-target lookup (MemberRef: refMember / fieldRef). *)
+Theorem C17_member_ref_cost_linear :
+  forall (e : env) (name : N) (id : nat),
+    snd (gg_refc (S (length e)) e name id []) <= 1 + total_fields e /\
+    fst (fst (gg_refc (S (length e)) e name id [])) = gg_member_ref e name id.
+Proof. exact member_ref_cost_linear. Qed.
+Print Assumptions C17_member_ref_cost_linear.
+
 (* ---- non-vacuity ---- *)
 Example ex_shift : fold_shl 1 1074 = Some (2 ^ 1074)%Z /\ fold_shl 1 1075 = None /\ fold_shl 1 (-7) = None /\
                    fold_shl 1 1000000000000 = None.
